@@ -287,6 +287,11 @@ where
 
         let success = true;
 
+        // Raft §5.3: commitIndex = min(leaderCommit, index of last NEW entry). Only the prefix
+        // up to prev_log_index + entries.len() has been proven equal to the leader's log by this
+        // request; anything beyond it in the local log may be a stale tail of a deposed leader.
+        let last_verified_index = request.prev_log_index.saturating_add(request.entries.len() as u64);
+
         if !request.entries.is_empty() {
             last_log_id_option = raft_log
                 .filter_out_conflicts_and_append(
@@ -299,7 +304,7 @@ where
 
         if let Some(new_commit_index) = Self::if_update_commit_index_as_follower(
             state_snapshot.commit_index,
-            raft_log.last_entry_id(),
+            last_verified_index.min(raft_log.last_entry_id()),
             request.leader_commit_index,
         ) {
             debug!("new commit index received: {:?}", new_commit_index);
@@ -332,7 +337,11 @@ where
         );
 
         if leader_commit_index > my_commit_index {
-            return Some(cmp::min(leader_commit_index, last_raft_log_id));
+            let new_commit_index = cmp::min(leader_commit_index, last_raft_log_id);
+            // never move the commit index backwards
+            if new_commit_index > my_commit_index {
+                return Some(new_commit_index);
+            }
         }
         None
     }
